@@ -270,6 +270,16 @@ def stale_tables(exprs):
             n += sum(1 for c in x[2:] if c.is_leaf() and c.data.isdigit() and c.id not in indices)
         if len(x) == 3 and x[0].is_leaf() and x[0].data == 'declare-const' and x[1].is_leaf() and x[1].id not in defs:
             n += 1
+    # the table of defined functions: the recorded body of a nullary definition is the body it has in THIS input
+    try:
+        for c in exprs:
+            if (not c.is_leaf()) and len(c) == 5 and c[0].is_leaf() and c[0].data == 'define-fun' and c[1].is_leaf() \
+                    and (not c[2].is_leaf()) and len(c[2]) == 0:
+                last = [d_ for d_ in exprs if (not d_.is_leaf()) and len(d_) == 5 and d_[0].is_leaf() and d_[0].data == 'define-fun' and d_[1] == c[1]][-1]
+                if (not smtlib.is_defined_fun(c[1])) or str(smtlib.get_defined_fun(nodes.Node(c[1].data))) != str(last[4]):
+                    n += 1
+    except Exception:  # noqa
+        pass
     return n
 
 
@@ -284,6 +294,11 @@ class TaskGenerator(_OrigTaskGen):
             num_filtered=self.num_filtered, nexprs=nodes.count_exprs(exprs), first=gran is None)
 
     def __next__(self):
+        if not getattr(self, '_verif_stale_logged', False):
+            st = stale_tables(self.exprs)       # the tables must follow every acceptance within the round, too
+            if st:
+                self._verif_stale_logged = True
+                log('stale_tables', digest=dig(self.exprs), count=st, mutator=type(self.mutator).__name__, gran=self.gran)
         t = super().__next__()
         log('ddmin_task', id=t.id, base=dig(self.exprs))
         return t
